@@ -74,6 +74,7 @@ class Session:
         self.nsteps = 0
         self.hang = False
         self.init_state = deep(self.tracks)
+        self.state_hashes: set[int] = set()
         for m in monitors:
             self._collect(m.start(self), -1)
 
@@ -145,6 +146,10 @@ class Session:
                       roles, subs)
         self.ops.append(op)
         self.nsteps += 1
+        # distinct states visited (graph shape + ids + label array digest)
+        self.state_hashes.add(hash((tuple(sorted(post["edges"])),
+                                    tuple(sorted(post["all_node_attrs"].items())),
+                                    post["seg"])))
         for m in self.monitors:
             self._collect(m.step(self, rec), rec.i)
         return rec
